@@ -66,7 +66,8 @@ def run(tier, seed, build=True):
         sub = [0, 1000000, 1000400, 1001000] if tier == "quick" else [0, 999000, 1000000, 1000001, 1000400, 1001000]
         seqs = list(nondecreasing(dom, 3))
         useqs = list(nondecreasing(sub, 2)) + list(nondecreasing(dom, 3, 3)) + [[1000000, 0], [1001000, 1000400, 0], [1000400, 0, 1001000]]   # record files: stored out of order too
-        oseqs = list(nondecreasing(sub, 2))
+        # (the ISO notation costs ~60 ms per run: lazily compiled patterns) -> fewer sequences in the quick tier
+        oseqs = list(nondecreasing(sub, 2)) if tier != "quick" else [[x] for x in sub] + [[0, 1000000], [1000000, 1000400], [1000400, 1000400]]
         kindseqs = {"T": seqs, "U": useqs, "O": oseqs}
         cases = []
         kind_pairs = [("T", "T"), ("T", "U"), ("U", "T"), ("U", "U"), ("O", "T"), ("T", "O"), ("O", "O")]
@@ -112,7 +113,9 @@ def run(tier, seed, build=True):
             x = cfg.run([], policy=policy)
             return case, extra, policy, x, expected, per, srcs
 
-        items = [(c, [], p) for c in cases for p in POLICIES] + [(c, ["-a", "20000101T000001", "-b", "20000101T000001.000"], p) for c in wcases for p in POLICIES[:2]]
+        def pols(c):
+            return POLICIES[:1] if (tier == "quick" and any(k == "O" for k, _ in c)) else POLICIES
+        items = [(c, [], p) for c in cases for p in pols(c)] + [(c, ["-a", "20000101T000001", "-b", "20000101T000001.000"], p) for c in wcases for p in POLICIES[:2]]
         nA = 0
         ties_seen = 0
         for case, extra, policy, x, expected, per, srcs in common.pmap_unordered(run_case, items):
